@@ -236,12 +236,12 @@ func main() {
 			c.HarnessError("configuration %s is not in general position: %s", cf.name, why)
 			continue
 		}
-		maxK := vlib.Pick(c, 6, 7)
+		maxK := vlib.Pick(c, 6, 8)
 		if cf.grid == 5 {
-			maxK = 5
+			maxK = 6
 		}
 		if cf.name == "jitter0.3" && c.Thorough() {
-			maxK = 8
+			maxK = 9
 		}
 		subs := subsets(len(pts), 3, maxK)
 		var tr int64
